@@ -31,7 +31,9 @@ import (
 	"fmt"
 	"io"
 	"log"
+	"os"
 	"runtime"
+	"strings"
 	"sync"
 	"time"
 	"unsafe"
@@ -82,7 +84,80 @@ func (t *toyBlock) Decrypt(dst, src []byte) { panic("toy: Decrypt is never used 
 
 // ---- run: re-execute one input on the real code ----
 
+var replayMode bool
+
+// longInput: a toy session or factory session with a message of 16 KiB or more
+func longInput(in Sx) bool {
+	var specs Sx
+	switch in.At(0).AsInt() {
+	case 0:
+		specs = in.At(7)
+	case 3:
+		specs = in.At(4)
+	default:
+		return false
+	}
+	for i := 0; i < specs.Len(); i++ {
+		e := specs.At(i)
+		if e.At(e.Len()-1).AsInt() >= 16384 || (e.Len() == 3 && e.At(2).AsInt() >= 16384) {
+			return true
+		}
+	}
+	return false
+}
+
+// failing: does the observation contradict the stock implementation (Go-side judgement, used
+// only to pick which of several attempts of a replay to report)
+func failing(in, obs Sx) bool {
+	switch in.At(0).AsInt() {
+	case 0:
+		if obs.At(0).AsBool() {
+			return len(in.At(4).AsBytes()) >= in.At(1).AsInt()
+		}
+		bad, _, _ := toyBad(in, obs)
+		return bad
+	case 3:
+		if obs.At(0).AsBool() {
+			return true
+		}
+		specs := in.At(4)
+		for i := 0; i < specs.Len(); i++ {
+			msg := lcg(specs.At(i).At(0).Uint64(), specs.At(i).At(1).AsInt())
+			o := obs.At(1).At(i)
+			if !bytes.Equal(o.At(0).AsBytes(), o.At(2).AsBytes()) || !bytes.Equal(o.At(1).AsBytes(), msg) {
+				return true
+			}
+		}
+	}
+	return false
+}
+
+// run: in replay mode a long input is attempted with GOMAXPROCS = 1, default, 2, 1 and the
+// first failing observation is the one reported (code that hands long messages to goroutines
+// may fail only under some schedules; with one P the goroutines run one after the other)
 func run(in Sx) Sx {
+	if !replayMode || !longInput(in) {
+		return runOnce(in)
+	}
+	var first Sx
+	for k, procs := range []int{1, 0, 2, 1} {
+		old := runtime.GOMAXPROCS(0)
+		if procs > 0 {
+			runtime.GOMAXPROCS(procs)
+		}
+		obs := runOnce(in)
+		runtime.GOMAXPROCS(old)
+		if k == 0 {
+			first = obs
+		}
+		if failing(in, obs) {
+			return obs
+		}
+	}
+	return first
+}
+
+func runOnce(in Sx) Sx {
 	switch in.At(0).AsInt() {
 	case 0:
 		return runToy(in)
@@ -557,15 +632,12 @@ func (g *genState) session(kind string, bs int, lens []int, ivlen, eblen, dblen 
 }
 
 // Go-side: the toy sessions against crypto/cipher CFB over the same toy block.
-func (g *genState) toyVsStdlib(in, obs Sx) {
-	if obs.At(0).AsBool() {
-		return
-	}
+func toyBad(in, obs Sx) (bad bool, op, n int) {
 	bs := in.At(1).AsInt()
 	blk := &toyBlock{bs: bs, mul: byte(in.At(2).AsInt()), key: in.At(3).AsBytes()}
 	iv := in.At(4).AsBytes()
-	if len(iv) < bs {
-		return
+	if obs.At(0).AsBool() || len(iv) < bs {
+		return false, 0, 0
 	}
 	ops, outs := in.At(7), obs.At(1)
 	for i := 0; i < ops.Len(); i++ {
@@ -586,11 +658,21 @@ func (g *genState) toyVsStdlib(in, obs Sx) {
 			want = make([]byte, len(src))
 			stdcipher.NewCFBDecrypter(blk, iv[:bs]).XORKeyStream(want, src)
 		}
-		g.out.GoChecked++
 		if !bytes.Equal(got, want) {
-			violation(g.out, fmt.Sprintf("C16/stdlib-cfb/toy%d", bs), fmt.Sprintf("unrolled CFB over a toy %d-byte block differs from crypto/cipher CFB (op %d, length %d)", bs, i, len(src)), in)
-			return
+			return true, i, len(src)
 		}
+	}
+	return false, 0, 0
+}
+
+func (g *genState) toyVsStdlib(in, obs Sx) {
+	if obs.At(0).AsBool() {
+		return
+	}
+	g.out.GoChecked += int64(in.At(7).Len())
+	if bad, i, n := toyBad(in, obs); bad {
+		bs := in.At(1).AsInt()
+		violation(g.out, fmt.Sprintf("C16/stdlib-cfb/toy%d", bs), fmt.Sprintf("unrolled CFB over a toy %d-byte block differs from crypto/cipher CFB (op %d, length %d)", bs, i, n), in)
 	}
 }
 
@@ -1303,5 +1385,10 @@ func factorySweepOne(out *acc, rng *Rng, name string, maxLen, rounds, part, part
 
 func main() {
 	log.SetOutput(io.Discard)
+	for _, a := range os.Args[1:] {
+		if a == "-replay" || a == "--replay" || strings.HasPrefix(a, "-replay=") || strings.HasPrefix(a, "--replay=") {
+			replayMode = true
+		}
+	}
 	Main(run, gen)
 }
